@@ -1,0 +1,14 @@
+// +build verif
+
+package raft
+
+import "math/rand"
+
+// VerifSeedRand re-seeds the package-global PRNG that randomizes election
+// timeouts, so that a run of the verification simulator (raftsim) is
+// replayable from its seed. Only compiled with the build tag "verif".
+func VerifSeedRand(seed int64) {
+	globalRand.mu.Lock()
+	globalRand.rand = rand.New(rand.NewSource(seed))
+	globalRand.mu.Unlock()
+}
